@@ -1,7 +1,7 @@
 (* ===== C05 : output types, entry points and materializers agree ===== *)
 From Coq Require Import List NArith ZArith QArith Qcanon Bool Arith.
 Import ListNotations.
-Require Import GenEntry Struct Sparse SparseLaws GenTie.
+Require Import GenEntry Struct Sparse SparseLaws SparseTerm GenTie.
 Open Scope nat_scope.
 
 (* sparse refines dense: the element-wise product of sparse columns holds, at every row, the product of the dense cells *)
@@ -27,6 +27,30 @@ Example C05_example :
   densify 3 (sp_mul [(0, Q2Qc 2); (2, Q2Qc 3)] [(2, Q2Qc 5); (1, Q2Qc 7)]) = [Q2Qc 0; Q2Qc 0; Q2Qc 15].
 Proof. vm_compute. reflexivity. Qed.
 
+(* the whole column of a term, for ANY number of factors: `scale * functools.reduce(csc_matrix.multiply, factor columns)` holds at every row
+   scale times the product of the factors' cells -- exactly what `scale * functools.reduce(numpy.multiply, ...)` computes on the dense path.
+   The side condition (each row stored at most once) is an invariant: every primitive column satisfies it and the product keeps it. *)
+Theorem C05_sparse_term_column_refines_dense : forall scale first rest i, spwf first ->
+  sp_get (sp_scale scale (sp_prod first rest)) i = (scale * qprod (sp_get first i) (map (fun c => sp_get c i) rest))%Qc.
+Proof. exact sp_term_get. Qed.
+Theorem C05_sparse_columns_wellformed : forall a b s v n c k codes st,
+  (spwf a -> spwf (sp_mul a b)) /\ (spwf a -> spwf (sp_scale s a)) /\ spwf (sp_const v n) /\ spwf (sp_of_dense c st) /\ spwf (sp_dummy codes k st).
+Proof. exact sp_cols_wf. Qed.
+Theorem C05_sparse_term_column_wellformed : forall first rest, spwf first -> spwf (sp_prod first rest).
+Proof. exact sp_prod_wf. Qed.
+(* and the product never stores a row its first factor does not store *)
+Theorem C05_sparse_term_column_stays_sparse : forall first rest i, In i (map fst (sp_prod first rest)) -> In i (map fst first).
+Proof. exact sp_prod_rows. Qed.
+Example C05_term_example :
+  densify 3 (sp_scale (Q2Qc 2) (sp_prod (sp_dummy [Some 0; Some 1; Some 0] 0 0) [sp_of_dense [Q2Qc 3; Q2Qc 4; Q2Qc 0] 0; sp_const (Q2Qc 5) 3]))
+  = [Q2Qc 30; Q2Qc 0; Q2Qc 0].
+Proof. vm_compute. reflexivity. Qed.
+
+Print Assumptions C05_sparse_term_column_refines_dense.
+Print Assumptions C05_sparse_columns_wellformed.
+Print Assumptions C05_sparse_term_column_wellformed.
+Print Assumptions C05_sparse_term_column_stays_sparse.
+Print Assumptions C05_term_example.
 Print Assumptions C05_sparse_product_refines_dense.
 Print Assumptions C05_densify_product.
 Print Assumptions C05_sparse_scale_refines_dense.
